@@ -402,3 +402,34 @@ Proof.
     + apply needs_quotes_false_all_valid. exact Hn.
     + destruct rest as [|c r]; [exact I | rewrite Hrest; reflexivity].
 Qed.
+
+(* ---- a format directive fixes what is displayed ---- *)
+Lemma learn_f_fixed f p st : fi_fixed f = true -> learn_f f p st = f.
+Proof. unfold learn_f. intros ->. reflexivity. Qed.
+
+Lemma learn_f_all_fixed l : forall f, fi_fixed f = true -> learn_f_all f l = f.
+Proof.
+  unfold learn_f_all. induction l as [|[p st] l IH]; intros f Hf; cbn [fold_left fst snd]; [reflexivity|].
+  rewrite (learn_f_fixed f p st Hf). apply IH, Hf.
+Qed.
+
+Theorem format_fixes_display f p st l :
+  learn_f_all (fix_format f p st) l = fix_format f p st.
+Proof. apply learn_f_all_fixed. reflexivity. Qed.
+
+Lemma learn_f_all_free l : forall f, fi_fixed f = false ->
+  learn_f_all f l = mkFI (learn_all (fi_info f) l) false.
+Proof.
+  unfold learn_f_all, learn_all. induction l as [|[p st] l IH]; intros f Hf; cbn [fold_left fst snd].
+  - destruct f as [i b]. cbn in Hf. subst b. reflexivity.
+  - unfold learn_f at 2. rewrite Hf. rewrite IH by reflexivity. reflexivity.
+Qed.
+
+(* before the directive everything is learned as usual; the directive's own amount is learned too; nothing after it *)
+Theorem display_info_with_format_directive ci before p st after :
+  fi_info (learn_f_all (fix_format (learn_f_all (mkFI ci false) before) p st) after) =
+  learn (learn_all ci before) p st.
+Proof.
+  rewrite format_fixes_display. rewrite (learn_f_all_free before (mkFI ci false) eq_refl).
+  unfold fix_format, learn_f. reflexivity.
+Qed.
